@@ -504,10 +504,12 @@ impl FileStateMachine {
         let mut pos = 0;
         let mut operations = Vec::new();
         let mut replayed_count = 0;
+        // Log id of the last complete WAL entry (entries are appended in apply order)
+        let mut last_replayed: Option<(u64, u64)> = None;
 
         while pos + 17 < buffer.len() {
             // Read entry index (8 bytes)
-            let _index = u64::from_be_bytes(buffer[pos..pos + 8].try_into().unwrap());
+            let index = u64::from_be_bytes(buffer[pos..pos + 8].try_into().unwrap());
             pos += 8;
 
             // Read entry term (8 bytes)
@@ -600,6 +602,7 @@ impl FileStateMachine {
             let expire_at_secs = if secs > 0 { Some(secs) } else { None };
 
             operations.push((op_code, key, value, term, expire_at_secs));
+            last_replayed = Some((index, term));
             replayed_count += 1;
         }
 
@@ -618,7 +621,10 @@ impl FileStateMachine {
             for (op_code, key, value, term, expire_at_secs) in operations {
                 match op_code {
                     WalOpCode::Insert => {
-                        if let Some(value_data) = value {
+                        // A zero-length value is an empty value, not a missing one
+                        // (delete has its own opcode).
+                        {
+                            let value_data = value.unwrap_or_default();
                             // Check if key is already expired (crash-safe TTL semantics)
                             let is_expired = if let Some(secs) = expire_at_secs {
                                 let expire_at =
@@ -660,8 +666,6 @@ impl FileStateMachine {
                             }
 
                             applied_count += 1;
-                        } else {
-                            warn!("INSERT operation without value");
                         }
                     }
                     WalOpCode::Delete => {
@@ -698,6 +702,19 @@ impl FileStateMachine {
             "WAL replay complete: {} operations replayed, {} applied, {} expired keys skipped",
             replayed_count, applied_count, skipped_expired
         );
+
+        // The replayed entries are part of the state now: report them as applied, otherwise the
+        // Raft layer applies them a second time on top of their own effects (a CAS would then be
+        // evaluated against a state that already contains it). Persist the recovered state
+        // before clearing the WAL, which is its only durable copy.
+        if let Some((index, term)) = last_replayed {
+            if index > self.last_applied_index.load(Ordering::SeqCst) {
+                self.last_applied_index.store(index, Ordering::SeqCst);
+                self.last_applied_term.store(term, Ordering::SeqCst);
+            }
+            self.persist_data_async().await?;
+            self.persist_metadata_async().await?;
+        }
 
         // Unconditionally clear WAL after replay. load_data() already restored the last
         // checkpoint; WAL is only the post-checkpoint delta. Even if 0 entries were applied
